@@ -83,7 +83,9 @@ def show(v, depth=0):
     if k == "tup":
         return "(" + ", ".join(show(x, depth + 1) for x in v[1]) + ")"
     if k == "clo":
-        return f"closure[{v[1]}]"
+        # captured values are part of the closure's identity: two instances of one closure body with different captures are different values
+        ups = ", ".join(f"{n}={show(x, depth + 1)}" for n, x in v[2]) if v[2] and depth <= 3 else (".." if v[2] else "")
+        return f"closure[{v[1]}]" + (f"{{{ups}}}" if ups else "")
     if k == "atom":
         return show_atom(v[1])
     if k == "natom":
